@@ -86,6 +86,7 @@ Definition complete (d : desc) : desc :=
         (Some (match d_get d with Some g => g | None => None end))
         (Some (match d_set d with Some s => s | None => None end)).
 
+Definition od {A} (o : option A) (dflt : A) := match o with Some a => a | None => dflt end.
 Definition ob (o : option bool) := match o with Some b => b | None => false end.
 
 (* the property a completed descriptor describes *)
@@ -181,6 +182,16 @@ Definition goja_compat (ext : bool) (d : desc) (cur : option prop) : bool :=
     else true
   end.
 
+(* builtin_object.go:114 toValueProp applied to the trap's result object (after complete() the
+   getter/setter are re-read from the object): the property is an accessor only if a getter or a
+   setter FUNCTION is present; {get: undefined, set: undefined} becomes a data property whose
+   value is nil (reported as undefined) *)
+Definition goja_to_prop (d : desc) : prop :=
+  match od (d_get d) None, od (d_set d) None with
+  | None, None => PData (od (d_value d) vundef) (ob (d_writable d)) (ob (d_enum d)) (ob (d_conf d))
+  | g, s => PAcc g s (ob (d_enum d)) (ob (d_conf d))
+  end.
+
 (* proxy.go:509 proxyGetOwnPropertyDescriptor *)
 Definition goja_gopd (r : gopdRes) (cur : option prop) (ext : bool) : res :=
   match r with
@@ -200,9 +211,9 @@ Definition goja_gopd (r : gopdRes) (cur : option prop) (ext : bool) : res :=
       | Some c =>
         if p_conf c then RTypeError else
         if flag_false (d_writable d) && p_writable c then RTypeError else
-        RDesc (Some (to_prop d))
+        RDesc (Some (goja_to_prop d))
       end
-    else RDesc (Some (to_prop d))
+    else RDesc (Some (goja_to_prop d))
   end.
 
 (* proxy.go:385 proxyDefineOwnPropertyPreCheck / PostCheck *)
@@ -333,7 +344,8 @@ Definition goja_check (c : call) (t : target) : res :=
   | CIsExt r => goja_isext r t
   | CPrevExt r => goja_prevext r t
   | CGopd k r => goja_gopd r (find_prop k (t_props t)) (t_ext t)
-  | CDefine k d r => goja_define d r (find_prop k (t_props t)) (t_ext t)
+  | CDefine k d r => if desc_invalid d then RTypeError   (* builtin_reflect.go: toPropertyDescriptor *)
+                     else goja_define d r (find_prop k (t_props t)) (t_ext t)
   | CHas k r => goja_has r (find_prop k (t_props t)) (t_ext t)
   | CGet k r => goja_get r (find_prop k (t_props t))
   | CSet k v r => goja_set v r (find_prop k (t_props t))
@@ -524,7 +536,8 @@ Definition spec_check (c : call) (t : target) : res :=
   | CIsExt r => spec_isext r t
   | CPrevExt r => spec_prevext r t
   | CGopd k r => spec_gopd r (find_prop k (t_props t)) (t_ext t)
-  | CDefine k d r => spec_define d r (find_prop k (t_props t)) (t_ext t)
+  | CDefine k d r => if desc_invalid d then RTypeError   (* 28.1.3 step 3 ToPropertyDescriptor *)
+                     else spec_define d r (find_prop k (t_props t)) (t_ext t)
   | CHas k r => spec_has r (find_prop k (t_props t)) (t_ext t)
   | CGet k r => spec_get r (find_prop k (t_props t))
   | CSet k v r => spec_set v r (find_prop k (t_props t))
@@ -550,9 +563,14 @@ Definition f6_region (d : desc) (cur : option prop) : bool :=
      (negb (is_generic d) && negb (Bool.eqb (is_data d) (negb (p_is_acc c))) && negb (isSome (d_conf d))))
   end.
 
+(* a result descriptor that is an accessor with neither a getter nor a setter function: goja
+   reports it as a data property (toValueProp) *)
+Definition undef_accessor (d : desc) : bool :=
+  is_accessor d && negb (isSome (od (d_get d) None)) && negb (isSome (od (d_set d) None)).
+
 Definition call_in_f6 (c : call) (t : target) : bool :=
   match c with
-  | CGopd k (GDesc d) => f6_region (complete d) (find_prop k (t_props t))
+  | CGopd k (GDesc d) => f6_region (complete d) (find_prop k (t_props t)) || undef_accessor d
   | CDefine k d true => f6_region d (find_prop k (t_props t))
   | _ => false
   end.
@@ -587,7 +605,6 @@ Fixpoint del_prop (k : key) (ps : list (key * prop)) : list (key * prop) :=
   | (k', p') :: r => if N.eqb k k' then r else (k', p') :: del_prop k r
   end.
 
-Definition od {A} (o : option A) (dflt : A) := match o with Some a => a | None => dflt end.
 
 (* 10.1.6.3 ValidateAndApplyPropertyDescriptor with O defined: the new property, or None = reject *)
 Definition validate_apply (ext : bool) (d : desc) (cur : option prop) : option prop :=
